@@ -81,7 +81,13 @@ def r1_pending_registered(r, facts):
     r.require(len(pushes) == 1, 'wait_for_submission/push', 'wait_for_submission does not push the waker', w.where())
     for loc, t in pushes:
         v = we.operand(t['args'][1])
-        r.require(v[0] == 'arg' and v[1] == 2, 'wait_for_submission/value', 'the pushed waker is not the parameter', w.where(loc))
+        # the parameter itself, or a clone of it (`waker: &Waker` cloned by the callee instead of the caller)
+        vv = v
+        while vv[0] == 'call' and vv[1].endswith('Clone::clone') and len(vv[2]) == 1:
+            vv = vv[2][0]
+            while vv[0] == 'ref':
+                vv = vv[1]
+        r.require(vv[0] == 'arg' and vv[1] == 2, 'wait_for_submission/value', 'the pushed waker is not the parameter', w.where(loc))
         tgt = we.operand(t['args'][0])
         ok = any(x[0] == 'call' and x[1] == 'lock' and fam.last_field(x[2][0]) == 'blocked_futures' for x in subexprs(tgt))
         r.inst('push under lock(blocked_futures)', w.where(loc))
@@ -236,6 +242,78 @@ def r4b_poll_wakes(r, facts):
     r.floor(2)
 
 
+def _children(e):
+    from .kernel import Expr
+    for x in e[1:]:
+        if isinstance(x, Expr):
+            yield x
+        elif isinstance(x, tuple):
+            for y in x:
+                if isinstance(y, Expr):
+                    yield y
+
+
+def _room_rule(r, f, ebp):
+    is_len = lambda x: x[0] == 'proj' and fam.last_field(x) == 'submissions_len'
+    is_uns = lambda x: x[0] == 'call' and x[1] == 'io_uring::Shared::unsubmitted_submissions'
+    has = lambda e, pr: any(pr(x) for x in subexprs(e))
+
+    def strip(x):
+        while x[0] == 'cast':
+            x = x[4]
+        return x
+    SUBS = ('saturating_sub', 'wrapping_sub', 'checked_sub')
+    seen = set()
+    found = 0
+
+    def visit(e, where):
+        """returns True when e contains the room expression; reports arithmetic with a constant wrapped around it"""
+        nonlocal found
+        if not (has(e, is_len) and has(e, is_uns)):
+            return False
+        kids = list(_children(e))
+        inner = [k for k in kids if has(k, is_len) and has(k, is_uns)]
+        if inner:
+            for k in inner:
+                visit(k, where)
+            # arithmetic on the room with a literal
+            arith = (e[0] == 'bin' and e[1] in ('Add', 'Sub', 'AddWithOverflow', 'SubWithOverflow', 'Shr', 'Div', 'Mul')) or \
+                    (e[0] == 'call' and e[1].rsplit('::', 1)[-1] in SUBS + ('saturating_add', 'wrapping_add'))
+            if arith:
+                lits = [strip(k) for k in kids if k not in inner and strip(k)[0] == 'const' and isinstance(strip(k)[1], int) and not isinstance(strip(k)[1], bool) and strip(k)[1] != 0]
+                if lits and str(e) not in seen:
+                    seen.add(str(e))
+                    r.bad('wake_blocked_futures/room', 'the room for blocked futures is computed with a constant taken off / added (%s): with a slot held back a future waiting for the only free slot is never woken' % str(e)[:140], where)
+            return True
+        # e is the smallest expression holding both the queue length and the unsubmitted count
+        found += 1
+        ok = False
+        if e[0] == 'call' and e[1].rsplit('::', 1)[-1] in SUBS and len(e[2]) == 2:
+            ok = is_len(strip(e[2][0])) and is_uns(strip(e[2][1]))
+        elif e[0] == 'bin' and e[1] in ('Sub', 'SubWithOverflow', 'SubUnchecked'):
+            ok = is_len(strip(e[2])) and is_uns(strip(e[3]))
+        elif e[0] == 'bin' and e[1] in ('Eq', 'Ne', 'Lt', 'Le', 'Gt', 'Ge'):
+            ok = {True} == {is_len(strip(x)) or is_uns(strip(x)) for x in (e[2], e[3])}
+        elif e[0] == 'call' and e[1].startswith('std::cmp::') and len(e[2]) == 2:
+            a_, b_ = [strip(x[1]) if x[0] == 'ref' else strip(x) for x in e[2]]
+            ok = (is_len(a_) and is_uns(b_)) or (is_len(b_) and is_uns(a_))
+        if not ok and str(e) not in seen:
+            seen.add(str(e))
+            r.bad('wake_blocked_futures/room', 'the room for blocked futures is not submissions_len (-) unsubmitted_submissions(): %s' % str(e)[:160], where)
+        return True
+    for b, blk in enumerate(f.blocks):
+        if blk['cleanup']:
+            continue
+        t = blk['term']
+        if t['k'] == 'switch':
+            visit(ebp.operand(t['discr']), f.where(f.term_loc(b)))
+        elif t['k'] == 'call':
+            for a in t['args']:
+                visit(ebp.operand(a), f.where(f.term_loc(b)))
+    r.inst('room = submissions_len (-) unsubmitted (%d uses)' % found, f.where())
+    r.require(found >= 1, 'wake_blocked_futures/room', 'no use of submissions_len (-) unsubmitted_submissions() found (unrecognised form)', f.where())
+
+
 def r5_conservation(r, facts):
     f = facts.fn(WBF)
     eb = ExprBuilder(f)
@@ -269,6 +347,10 @@ def r5_conservation(r, facts):
                 lossy = [b_ for b_ in between if b_.rsplit('::', 1)[-1] in ('take', 'take_while', 'step_by', 'skip', 'skip_while', 'filter', 'filter_map', 'nth', 'map_while', 'zip')]
                 r.inst('drain consumed by %s%s' % (n_.rsplit('::', 1)[-1], ' through %s' % between if between else ''), f.where(loc))
                 r.require(not lossy, 'wake_blocked_futures/drain-cut-short', 'wakers are drained through %s: the Drain removes its whole range from the list but only part of it is woken or re-queued, the rest is dropped un-woken' % lossy, f.where(loc))
+    # the room the function works with — the test that lets it return without waking anybody and the bound on how many are
+    # woken — is the whole room: submissions_len (-) unsubmitted, nothing held back (a blocked future is owed a wake-up as
+    # soon as ONE slot is free; with a reserve a queue of that size never wakes anybody)
+    _room_rule(r, f, ebp)
     # after the take: re-queue (swap or extend into the field) and wake-all (into_iter loop) are unavoidable
     after = [Loc(tt['target'], 0)]
     swaps = [loc for loc, t in f.calls() if (t.get('callee') or '') in ('std::mem::swap',) and 'Vec<std::task::Waker>' in (t.get('callee_full') or '')]
